@@ -412,6 +412,16 @@ pub fn run_engine<E: Engine + 'static>(engine: Arc<E>, tier: Tier, seed: u64) ->
                         executed.fetch_add(1, Ordering::Relaxed);
                         record(&stats, &out);
                     }
+                    if let (Some(a), Ok(_)) = (&out.aborted, std::env::var("VERIF_DUMP_ABORTED")) {
+                        // developer switch: keep the aborted cases for a look
+                        let dir = Path::new("/tmp/hqverif-aborted");
+                        let _ = std::fs::create_dir_all(dir);
+                        let body = serde_json::json!({"property": prop, "seed": seed, "signature": "aborted", "detail": a, "case": &case});
+                        let _ = std::fs::write(
+                            dir.join(format!("{:016x}.json", hash_str(&body.to_string()))),
+                            body.to_string(),
+                        );
+                    }
                     if let Some(v) = out.violation {
                         if collect {
                             // developer mode: histogram of violation signatures, never fails
